@@ -63,6 +63,24 @@ theorem pruneLoop_exact (p : Policy) (least : Nat) (vs : List Ver) :
     · rename_i hc
       exact ⟨0, Nat.zero_le _, rfl, fun i hi => absurd hi (Nat.not_lt_zero _), hc⟩
 
+/-- the loop keeps the **longest** suffix of the deque whose first version is not prunable at its turn: any other
+suffix with that property is shorter (so, for a policy that is not monotone, versions behind the first refusal stay
+even if the policy would accept them) -/
+theorem pruneLoop_longest (p : Policy) (least : Nat) (vs : List Ver) (S : List Ver) (hS : S <:+ vs)
+    (hF : FrontKept p least S) : S.length ≤ (pruneLoop p least vs).length := by
+  induction vs with
+  | nil =>
+    have : S = [] := List.suffix_nil.mp hS
+    subst this; simp [pruneLoop]
+  | cons v rest ih =>
+    unfold pruneLoop
+    split
+    · rename_i hc
+      rcases List.suffix_cons_iff.mp hS with e | hs
+      · subst e; exact absurd hc hF
+      · exact ih hs
+    · exact hS.length_le
+
 /-! ### `least_kept` -/
 
 theorem foldl_min_le (rest : List (Nat × Ver)) (m : Nat) :
@@ -299,6 +317,8 @@ theorem inv_step (s : State) (op : Op) (h : Inv s) : Inv (step s op).1 := by
     cases p with
     | none => exact prune_inv _ ⟨h.pre.last, h.pre.suffix, h.pre.ids, h.pre.wr, h.pre.pins⟩
     | some ids => exact prune_inv _ ⟨h.pre.last, h.pre.suffix, h.pre.ids, h.pre.wr, h.pre.pins⟩
+  | setModp a b => exact prune_inv _ ⟨h.pre.last, h.pre.suffix, h.pre.ids, h.pre.wr, h.pre.pins⟩
+  | setPred f => exact prune_inv _ ⟨h.pre.last, h.pre.suffix, h.pre.ids, h.pre.wr, h.pre.pins⟩
   | observe hd =>
     simp only [step]
     split <;> exact h
@@ -339,6 +359,20 @@ theorem findReader_remove (rs : List (Nat × Ver)) (hd hd' : Nat) (v : Ver) (hne
         have := ih h'
         simpa [findReader, List.find?, hxd] using this
 
+/-! ### `reader(id=…)` and `reader(serial=…)` -/
+
+theorem find_rev_some {vs : List Ver} {q : Ver → Bool} {v : Ver} (h : vs.reverse.find? q = some v) :
+    q v = true ∧ ∃ pre post, vs = pre ++ v :: post ∧ ∀ w ∈ post, q w = false := by
+  obtain ⟨hq, as, bs, he, hall⟩ := List.find?_eq_some_iff_append.mp h
+  refine ⟨hq, bs.reverse, as.reverse, ?_, fun w hw => by simpa using hall w (List.mem_reverse.mp hw)⟩
+  have := congrArg List.reverse he
+  simpa using this
+
+theorem find_rev_none {vs : List Ver} {q : Ver → Bool} (h : vs.reverse.find? q = none) : ∀ w ∈ vs, q w = false := by
+  intro w hw
+  have := List.find?_eq_none.mp h w (List.mem_reverse.mpr hw)
+  simpa using this
+
 def closes (hd : Nat) : Op → Bool
   | .close h => decide (h = hd)
   | _ => false
@@ -369,6 +403,8 @@ theorem reader_kept_step (s : State) (op : Op) (hd : Nat) (v : Ver) (hc : closes
     | none => simp only [step, prune]; exact h
     | some m => simp only [step]; split <;> first | exact h | (simp only [prune]; exact h)
   | setPolicy p => cases p <;> (simp only [step, prune]; exact h)
+  | setModp a b => simp only [step, prune]; exact h
+  | setPred f => simp only [step, prune]; exact h
   | observe h' => simp only [step]; split <;> exact h
 
 theorem reader_kept_run (s : State) (ops : List Op) (hd : Nat) (v : Ver) (hc : ∀ op ∈ ops, closes hd op = false)
